@@ -13,6 +13,7 @@ import (
 	"fmt"
 	"io"
 	mrand "math/rand/v2"
+	"runtime"
 	"sync"
 	"testing"
 	"time"
@@ -483,6 +484,11 @@ func TestVerif_C09(t *testing.T) {
 		}
 		r.Case(id, nil)
 		var vkind, vdet string
+		procs := 16
+		if blk%2 == 0 {
+			procs = 1 // per-P caches (sync.Pool) hand a just-released buffer to the next connection
+		}
+		prevProcs := runtime.GOMAXPROCS(procs)
 		p, leftover := vk.InBubble(t, func() {
 			rng := r.Rand("c09c", blk)
 			e := newC09Env(t, rng)
@@ -550,6 +556,7 @@ func TestVerif_C09(t *testing.T) {
 		if p != nil && !leftover && vkind == "" {
 			vkind, vdet = "panic", fmt.Sprint(p)
 		}
+		runtime.GOMAXPROCS(prevProcs)
 		r.Distinct("cases", vk.Hash64("conc", blk))
 		if vkind != "" {
 			r.Violation(id, "C09:"+vkind, vdet, nil)
